@@ -3,6 +3,7 @@
 From PV Require Import Base.Tac UserTrig.UserTrigDefs UserTrig.UserTrigProofs.
 From PV Require UserTrig.ArriveDefs UserTrig.ArriveProofs.
 From PV Require Gen.Gen_usertrig Gen.GenEq_usertrig.
+From PV Require UserTrig.CountDefs UserTrig.CountProofs.
 Local Open Scope Z_scope.
 
 (* every process other than the root is the destination of exactly one
@@ -47,6 +48,34 @@ Theorem C12_children_are_the_code : forall n root me, 0 < n -> 0 <= root < n -> 
   = children n root me.
 Proof. exact GenEq_usertrig.children_are_the_code. Qed.
 Print Assumptions C12_children_are_the_code.
+
+(* ---- the counter protocol of one process (UserTrig/CountDefs.v) ----
+   for every disciplined history of the module's interface calls on one process (ready first and once,
+   the trigger once after it, runtime actions never below zero): termination is signalled — children
+   notified, callback run — at most once; exactly when the monitor is TERMINATED; and as soon as the
+   taskpool is ready with no pending action it HAS been signalled.  In particular runtime actions
+   added and retired after the termination do not signal it again. *)
+Theorem C12_signalled_exactly_once : forall ops, CountDefs.disciplined CountDefs.cinit ops = true ->
+  let s := CountDefs.crun ops CountDefs.cinit in
+  (CountDefs.c_sig s <= 1)%nat /\ (CountDefs.c_sig s = 1%nat <-> CountDefs.c_state s = CountDefs.Terminated) /\
+  (CountDefs.c_state s <> CountDefs.NotReady -> CountDefs.c_pa s = 0 -> CountDefs.c_sig s = 1%nat).
+Proof. exact CountProofs.count_exactly_once. Qed.
+Print Assumptions C12_signalled_exactly_once.
+
+(* the signalling calls must test the monitor state: testing only "nb_tasks was set to 0" signals twice *)
+Theorem C12_state_guard_necessary :
+  let s1 := CountProofs.add_actions_tasks0 (-1)
+              {| CountDefs.c_state := CountDefs.Busy; CountDefs.c_tasks0 := true; CountDefs.c_pa := 1; CountDefs.c_sig := 0 |} in
+  CountDefs.c_sig s1 = 1%nat /\
+  CountDefs.c_sig (CountProofs.add_actions_tasks0 (-1) (CountProofs.add_actions_tasks0 1 s1)) = 2%nat.
+Proof. exact CountProofs.state_guard_necessary. Qed.
+Print Assumptions C12_state_guard_necessary.
+
+Example C12_count_example :
+  let ops := [CountDefs.OReady; CountDefs.OAddActions 2; CountDefs.OTrigger; CountDefs.OAddActions (-2);
+              CountDefs.OAddActions 1; CountDefs.OAddActions (-1)] in
+  CountDefs.disciplined CountDefs.cinit ops = true /\ CountDefs.c_sig (CountDefs.crun ops CountDefs.cinit) = 1%nat.
+Proof. vm_compute. split; reflexivity. Qed.
 
 (* ---- arrival of the notification at a process (UserTrig/ArriveDefs.v) ----
    whatever the moment at which the notification arrives relative to the registration of the
